@@ -1,7 +1,10 @@
-"""Fail-closed translator of three helpers of SimplicialComplex - _add_simplex, _add_face, _remove_simplex_id
-(xgi/core/simplicialcomplex.py), the only places where the class writes its tables - into programs of the statement
-language of coq/Model/PyIR.v (coq/Gen/ScMutators.v).  `Props/C03.v` proves that running them is what the model's
-`insert_edge` / `remove_edge1` do.  The accepted statements are those of translate_mutators.py."""
+"""Fail-closed translator of SimplicialComplex mutators (xgi/core/simplicialcomplex.py) into programs of the statement language of
+coq/Model/PyIR.v (coq/Gen/ScMutators.v): the three helpers _add_simplex, _add_face, _remove_simplex_id - the only places where the
+class writes its tables - and, built on them, add_simplex as a whole (guards, `idx = next(self._edge_uid) if not idx else idx`,
+the calls, the loop over set(self._subfaces(members)) with its guard) and the public remove_simplex_id (the try/except KeyError
+frame, the loop over the ids _supfaces_id returns, the calls).  `Props/C03.v` proves that running them is what the model's
+`insert_edge` / `remove_edge1` / `add_simplex` / `remove_simplex_id` do.  The accepted statements are those of translate_mutators.py;
+`self._subfaces(...)`, `set(faces)` and `self._supfaces_id(self._edge[idx])` are accepted verbatim (their results are inputs of the runners)."""
 import ast, os
 from . import common as C
 from .translate_mutators import M, TranslationError
@@ -68,6 +71,23 @@ def translate():
     out.append(f"Definition src_sc_add_simplex_head : list stmt :=\n  {head}.\n")
     out.append(f"Definition src_sc_face_guards : list (bexp * guard_action) :=\n  [{'; '.join(fgs)}].\n")
     out.append(f"Definition src_sc_face_item : list stmt :=\n  {mf.block(frest)}.\n")
+    # remove_simplex_id(self, idx): try: supfaces_ids = self._supfaces_id(self._edge[idx]); <statements> except KeyError: raise XGIError
+    f, body = _fn(cls[0], "remove_simplex_id")
+    if [a.arg for a in f.args.args] != ["self", "idx"] or f.args.kwarg or f.args.vararg or f.args.kwonlyargs or f.args.defaults:
+        raise TranslationError("SimplicialComplex.remove_simplex_id: unexpected parameters")
+    if len(body) != 1 or not isinstance(body[0], ast.Try) or body[0].orelse or body[0].finalbody or len(body[0].handlers) != 1:
+        raise TranslationError("SimplicialComplex.remove_simplex_id: expected one try ... except KeyError")
+    h = body[0].handlers[0]
+    if ast.unparse(h.type) != "KeyError" or len(h.body) != 1 or not isinstance(h.body[0], ast.Raise) \
+            or not (isinstance(h.body[0].exc, ast.Call) and ast.unparse(h.body[0].exc.func) == "XGIError"):
+        raise TranslationError("SimplicialComplex.remove_simplex_id: expected `except KeyError: raise XGIError(...)`")
+    tb = body[0].body
+    if not tb or ast.unparse(tb[0]) != "supfaces_ids = self._supfaces_id(self._edge[idx])":
+        raise TranslationError("SimplicialComplex.remove_simplex_id: expected `supfaces_ids = self._supfaces_id(self._edge[idx])` first")
+    m = M(["idx"], [], None)
+    m.locals = ["supfaces_ids"]
+    m.arg_calls = {"self._remove_simplex_id": "src_sc_remove_simplex_id"}
+    out.append(f"Definition src_sc_remove_simplex_id_public : list stmt :=\n  {m.block(tb[1:])}.\n")
     return out
 
 
